@@ -337,6 +337,15 @@ Section WithHash.
     destruct (b58_decode s) as [b|e|]; cbn [rbind]; [apply from_bytes_never_panics|discriminate|congruence].
   Qed.
 
+  (* 95 characters, 106 with a payment id *)
+  Lemma to_string_length a s : wf_addr a -> addr_to_string H a = Ok s ->
+    length s = match a_type a with Integrated _ => 106%nat | _ => 95%nat end.
+  Proof.
+    intros Hw. unfold addr_to_string. destruct (b58_encode (addr_as_bytes H a)) as [x|e|] eqn:E; try discriminate.
+    intros Hs. injection Hs as <-. apply b58_encode_length in E. rewrite E, (as_bytes_length a Hw).
+    destruct (a_type a); reflexivity.
+  Qed.
+
   (* ---- hex ------------------------------------------------------------------------------------ *)
   Lemma from_as_hex a : wf_addr a ->
     addr_from_hex H valid_pk (addr_as_hex H a) = Ok a /\
